@@ -32,26 +32,16 @@ func fresh(x any) bool                           { return true }
 
 // Compile builds a fresh writer (and a fresh mapper when a source map is requested) per call, configured from the
 // compiler's settings only; it stores nothing in the compiler and writes nothing to the tree (empty modifies clause).
-// Post-processing of the text depends on the pretty-print setting alone -- never on whether a source map is requested.
+// The writer's text is the result as it stands, in every configuration: nothing is trimmed, split or joined after the
+// mapper has recorded generated positions (C08) and nothing reaches into multi-line literals (C07).
 //@ func (c *Compiler) Compile(program)
 //@   props C14 C06 C08 C01 C11
 //@   requires [program] program != nil
 //@   atcall ast:(*Program).WriteTo [writer.config@C06,C14] arg_cw != nil && fresh(arg_cw) && arg_cw.PrettyPrint == c.prettyPrint && arg_cw.IndentString == c.prettyPrintOptions.IndentString && arg_cw.WriteSemicolons == c.prettyPrintOptions.WriteSemicolons && arg_cw.IndentLevel == 0 && (arg_cw.Mapper != nil) == c.generateSourceMap && ast.WriterEmpty(arg_cw)
 //@   atcall ast:(*Program).WriteTo [writer.mapper@C08,C14] arg_cw.Mapper == nil || fresh(arg_cw.Mapper)
 //@   ensures [once@C01] ncalls("(*Program).WriteTo") == 1 && callArg[*ast.Program]("(*Program).WriteTo", 0, 0) == program
-//@   ensures [postprocess@C14,C06] ncalls("cleanEmptyLines") == ite(c.prettyPrint, 1, 0)
-//@   ensures [code.compact@C14,C01] implies(!c.prettyPrint, ncalls("(*CodeWriter).String") == 1 && result.Code == callResult[string]("(*CodeWriter).String", 0))
-//@   ensures [code.pretty@C06] implies(c.prettyPrint, result.Code == callResult[string]("cleanEmptyLines", 0) && callArg[string]("cleanEmptyLines", 0, 0) == callResult[string]("(*CodeWriter).String", 0))
+//@   ensures [code@C14,C01,C06,C08,C07] ncalls("(*CodeWriter).String") == 1 && result.Code == callResult[string]("(*CodeWriter).String", 0)
 //@   ensures [map@C08,C14] (result.SourceMap != nil) == c.generateSourceMap
-
-// Post-processing of pretty output, as a call-sequence contract: trim the whole text, split it at line breaks, trim
-// trailing spaces (only spaces) of every line in place, join the same lines again. No line is dropped, added or reordered.
-//@ func cleanEmptyLines(code)
-//@   props C06 C14 C11 C15 C07 C08
-//@   loop 1 invariant [frame] len(lines) == atEntry(len(lines))
-//@   loop 1 before [mechanism@C06,C15,C07,C08] fullSeq(evCall("strings.TrimSpace"), evCall("strings.Split")) && callArg[string]("strings.TrimSpace", 0, 0) == code && callArg[string]("strings.Split", 0, 0) == callResult[string]("strings.TrimSpace", 0) && callArg[string]("strings.Split", 0, 1) == "\n"
-//@   loop 1 each [mechanism@C06,C15,C07,C08] fullSeq(evCall("strings.TrimRight")) && callArg[string]("strings.TrimRight", 0, 1) == " " && callArg[string]("strings.TrimRight", 0, 0) == line && lines[i] == callResult[string]("strings.TrimRight", 0)
-//@   ensures [mechanism@C06,C15,C07,C08] fullSeq(evCall("strings.Join")) && callArg[string]("strings.Join", 0, 1) == "\n" && result == callResult[string]("strings.Join", 0) && len(callArg[[]string]("strings.Join", 0, 0)) == len(callResult[[]string]("strings.Split", 0))
 
 //@ func New()
 //@   props C14 C11
